@@ -37,10 +37,18 @@ type caseA struct {
 	BobBypass bool   `json:"bob_bypass"`          // the initial policy grants bob s3:BypassGovernanceRetention
 	NoPolicy  bool   `json:"no_policy,omitempty"` // the bucket starts without any bucket policy
 	Older     bool   `json:"older,omitempty"`     // versioned buckets: the protected version is not the current one
+	DirKey    bool   `json:"dir_key,omitempty"`   // the protected object is a directory object (key ending in '/', no data)
+	PolStyle  int    `json:"policy_style,omitempty"`
 	Ops       []op   `json:"ops"`
 }
 
-const key = "precious"
+// key: the protected key of the case in hand ("precious", or the directory object "precious-dir/")
+var key = "precious"
+
+// policyStyle: how the bucket policy of the case in hand is written (0: Allow of the listed actions plus an Allow of the
+// bypass permission for its holders; 1: Allow s3:* for alice and bob, then an explicit Deny of the bypass permission for
+// everybody who does not hold it)
+var policyStyle int
 
 var allActs = []string{"s3:PutObject", "s3:GetObject", "s3:DeleteObject", "s3:GetObjectVersion", "s3:PutObjectRetention", "s3:GetObjectRetention",
 	"s3:PutObjectLegalHold", "s3:GetObjectLegalHold", "s3:PutBucketObjectLockConfiguration", "s3:PutBucketVersioning", "s3:DeleteBucket",
@@ -50,11 +58,21 @@ func policyDoc(b string, bypass map[string]bool) string {
 	q := func(ss []string) string { return `["` + strings.Join(ss, `","`) + `"]` }
 	res := q([]string{"arn:aws:s3:::" + b, "arn:aws:s3:::" + b + "/*"})
 	doc := `{"Version":"2012-10-17","Statement":[{"Effect":"Allow","Principal":["alice","bob"],"Action":` + q(allActs) + `,"Resource":` + res + `}`
-	var holders []string
+	var holders, others []string
 	for _, u := range []string{"alice", "bob", "carol"} {
 		if bypass[u] {
 			holders = append(holders, u)
+		} else {
+			others = append(others, u)
 		}
+	}
+	if policyStyle == 1 {
+		// everything is allowed first, the bypass permission is then taken away again from those who do not hold it
+		doc = `{"Version":"2012-10-17","Statement":[{"Effect":"Allow","Principal":["alice","bob"],"Action":"s3:*","Resource":` + res + `}`
+		if len(others) > 0 {
+			doc += `,{"Effect":"Deny","Principal":` + q(others) + `,"Action":"s3:BypassGovernanceRetention","Resource":` + res + `}`
+		}
+		return doc + `]}`
 	}
 	if len(holders) > 0 {
 		doc += `,{"Effect":"Allow","Principal":` + q(holders) + `,"Action":"s3:BypassGovernanceRetention","Resource":` + res + `}`
@@ -116,6 +134,10 @@ type stats struct {
 func runA(c caseA) error { _, err := execA(c); return err }
 
 func execA(c caseA) (st stats, err error) {
+	key, policyStyle = "precious", c.PolStyle
+	if c.DirKey {
+		key = "precious-dir/"
+	}
 	eng, sb, err := engine(c)
 	if err != nil {
 		return st, fmt.Errorf("SETUP: %v", err)
@@ -148,6 +170,9 @@ func execA(c caseA) (st stats, err error) {
 		return st, fmt.Errorf("SETUP: policy: %v %s", r, policyDoc(b, bypass))
 	}
 	data := []byte("precious data that must survive " + b)
+	if c.DirKey {
+		data = []byte{}
+	}
 	path := "/" + b + "/" + key
 	var lockHdr []s3c.KV
 	uploadUntil := time.Now().Add(time.Hour)
@@ -481,6 +506,8 @@ func TestC10A(t *testing.T) {
 		c.BobBypass = rapid.Bool().Draw(t, "bob_bypass")
 		c.NoPolicy = rapid.IntRange(0, 3).Draw(t, "no_policy") == 0
 		c.Older = rapid.IntRange(0, 2).Draw(t, "older") == 0
+		c.DirKey = rapid.IntRange(0, 5).Draw(t, "dir_key") == 0
+		c.PolStyle = rapid.IntRange(0, 2).Draw(t, "policy_style") % 2
 		c.Ops = rapid.SliceOfN(opGen(), 1, 10).Draw(t, "ops")
 		ev.Trace("C10A", c)
 		st, err := execA(c)
@@ -495,7 +522,7 @@ func TestC10A(t *testing.T) {
 		if st.RefusedWeakening > 0 {
 			cls = append(cls, "weakening-refused")
 		}
-		ev.Case(fmt.Sprintf("%s/%d|%v|%v|%v|%v|%v|%v", c.Protect, c.ModeCase, c.Versioned, c.Sidecar, c.BobBypass, c.NoPolicy, c.Older, c.Ops), st.Accepted > 0 || st.RefusedWeakening > 0, cls...)
+		ev.Case(fmt.Sprintf("%s/%d|%v|%v|%v|%v|%v|%v|%v|%d", c.Protect, c.ModeCase, c.Versioned, c.Sidecar, c.BobBypass, c.NoPolicy, c.Older, c.Ops, c.DirKey, c.PolStyle), st.Accepted > 0 || st.RefusedWeakening > 0, cls...)
 		ev.Sample("protect:"+c.Protect, 1, c)
 		if err != nil {
 			if strings.HasPrefix(err.Error(), "SETUP") {
